@@ -32,8 +32,8 @@ fn ref_script(w: &[u8], sc: &[Sop]) -> (Vec<i128>, usize) {
 fn random_sop(rng: &mut Rng, l: usize) -> Sop {
     let around = |rng: &mut Rng| -> usize { match rng.below(6) { 0 => 0, 1 => 1, 2 => l.saturating_sub(1), 3 => l, 4 => l + 1, _ => rng.below(l as u64 + 3) as usize } };
     match rng.below(14) {
-        0 | 1 => Sop::Request(around(rng)), 2 => Sop::Slice, 3 => Sop::Bytes(around(rng), around(rng)), 4 | 5 => Sop::Advance(around(rng)),
-        6 => Sop::Skip(around(rng)), 7 => Sop::TakeU8, 8 => Sop::TakeOptU8, 9 => Sop::TakeAll, 10 => Sop::SkipAll,
+        0 | 1 => Sop::Request(if rng.chance(1, 12) { usize::MAX - rng.below(3) as usize } else { around(rng) }), 2 => Sop::Slice, 3 => Sop::Bytes(around(rng), around(rng)), 4 | 5 => Sop::Advance(around(rng)),
+        6 => Sop::Skip(if rng.chance(1, 8) { usize::MAX - rng.below(3) as usize } else { around(rng) }), 7 => Sop::TakeU8, 8 => Sop::TakeOptU8, 9 => Sop::TakeAll, 10 => Sop::SkipAll,
         11 => Sop::SliceAll, 12 => Sop::WithSliceAll, _ => Sop::Remaining,
     }
 }
